@@ -904,6 +904,31 @@ class _QuantToLoop(ast.NodeTransformer):
                 for o in out:
                     ast.fix_missing_locations(o)
                 return out
+        # `x = A and helper(..)` -> `x = A` / `if x: x = helper(..)`   (or: `if not x:`); likewise for `return`
+        if isinstance(st, (ast.Assign, ast.Return)) and isinstance(st.value, ast.BoolOp) and \
+                (isinstance(st, ast.Return) or (len(st.targets) == 1 and isinstance(st.targets[0], ast.Name))):
+            later = [n for v in st.value.values[1:] for n in ast.walk(v) if isinstance(n, ast.Call) and
+                     ((isinstance(n.func, ast.Name) and n.func.id in self.names) or (isinstance(n.func, ast.Attribute) and n.func.attr in self.names))]
+            x = st.targets[0].id if isinstance(st, ast.Assign) else 'condition__value'
+            used = {n.id for n in ast.walk(st.value) if isinstance(n, ast.Name)}
+            if later and x not in used:
+                is_and = isinstance(st.value.op, ast.And)
+                vals = st.value.values
+                out = [ast.Assign(targets=[ast.Name(id=x, ctx=ast.Store())], value=vals[0], type_comment=None)]
+                cur = out
+                for v in vals[1:]:
+                    test = ast.Name(id=x, ctx=ast.Load())
+                    if not is_and:
+                        test = ast.UnaryOp(op=ast.Not(), operand=test)
+                    nxt = ast.If(test=test, body=[ast.Assign(targets=[ast.Name(id=x, ctx=ast.Store())], value=v, type_comment=None)], orelse=[])
+                    cur.append(nxt)
+                    cur = nxt.body
+                if isinstance(st, ast.Return):
+                    out.append(ast.Return(value=ast.Name(id=x, ctx=ast.Load())))
+                for o in out:
+                    ast.copy_location(o, st)
+                    ast.fix_missing_locations(o)
+                return out
         # `return [E for t in it if c]` / `x = [E for ...]` with such a helper in E: the accumulator loop
         if isinstance(st, (ast.Return, ast.Assign)) and isinstance(st.value, ast.ListComp) and len(st.value.generators) == 1 and \
                 not st.value.generators[0].is_async and \
